@@ -1,5 +1,6 @@
 """C03 -- persisted models are observationally equivalent to the model that was saved."""
 import hashlib
+import itertools
 import json
 import os
 import shutil
@@ -42,6 +43,7 @@ CONTENT = [
     '- a', 'k: v', '{a: 1}', '[1, 2]', '# c', 'null', '~', 'true', 'yes', 'no', 'on', '1', '1.0', '1e3', '0x10', '.5',
     "'q'", '"q"', ' lead', 'trail ', '', 'é', '日本', 'a\nb', 'a\tb', 'x' * 300, 'a: b: c', '%TAG', '@at', '`bt`',
     '!bang', '&anchor', '*alias', '|', '>', '2001-01-01', '12:30:00', 'a #b', '\\n', 'a\\b', 'NaN', '.inf', '#N/A', '#DIV/0!',
+    "'=1+1", "'=SUM(A1:A3)' is the total", "'", "''", "'abc", '"=1+1"',
     '\U0001F600', 'a b', 'a\u0085b', 'a\u2028  b', 'a\u2029b', 'a\x7fb', 'tab\there', 'q"uo\'te', '=1+1', '=A1', '_C_("S!A1")',
 ]
 
@@ -359,7 +361,9 @@ def work_rules(job):
         acc.violation(dict(base, verdict=verdict, **kw), f"{fam['name']} cycles={cycles}: {msg}")
     try:
         spec = fam['spec']
-        if cycles:
+        if cycles == 'bare':
+            spec = dict(spec, calc={'iterate': True, 'bare': True})       # iteration on, count / delta not given
+        elif cycles:
             spec = dict(spec, calc={'iterate': True, 'count': 50, 'delta': 0.001})
         stored = {a: v[1] for a, v in W.scratch_values(fam['spec']).items() if v[0] == 'ok'}
         xlsx = os.path.join(tmp, 'book.xlsx')
@@ -484,6 +488,87 @@ def work_rules(job):
     return acc.result()
 
 
+# ---------------------------------------------------------------------------------------------- part C2: save histories
+SAVE_TYPES = [('yml',), ('json',), ('pkl',), ('pkl', 'yml'), ('pkl', 'json')]
+SAVE_OPS = [('set', 5), ('set', 6), ('ev',)] + [('save', t) for t in SAVE_TYPES]
+
+
+def work_saves(job):
+    """every history (depth 4) of {write the input, compile a further cell lazily, to_file with each combination of file
+    types}: after each save, from_file by the bare name and by each file name just written must give the model as it was
+    saved -- the input's value, the formulas over it, and every cell the model held at that save"""
+    k0, m, depth = job
+    from pycel.excelcompiler import ExcelCompiler
+    acc = Acc()
+    if depth == 'patterns':
+        # three saves with a write before each: every combination of file types, the third write going back to the first
+        # value (the text then equals the one of the first save) or on to a new one
+        hists = [(('set', 5), ('save', t1), ('set', 6), ('save', t2), ('set', v3), ('save', t3))
+                 for t1 in SAVE_TYPES for t2 in SAVE_TYPES for t3 in SAVE_TYPES for v3 in (5, 7)]
+        hists += [(('save', t1), ('ev',), ('save', t2), ('set', 6), ('save', t3)) for t1 in SAVE_TYPES for t2 in SAVE_TYPES for t3 in SAVE_TYPES]
+    else:
+        hists = itertools.product(SAVE_OPS, repeat=depth)
+    tmp = tempfile.mkdtemp(prefix='c03s_')
+    spec = {'sheets': {'S': {'A1': 1, 'B1': '=A1+1', 'C1': '=B1*2', 'D1': '=A1&"|"'}}, 'active': 'S'}
+    try:
+        n = 0
+        for hist in hists:
+            n += 1
+            if n % m != k0 or not any(o[0] == 'save' for o in hist):
+                continue
+            acc.add('states')
+            d = os.path.join(tmp, f'h{n}')
+            os.makedirs(d)
+            base = os.path.join(d, 'model')
+            mdl = W.compile_inmem(spec)
+            mdl.evaluate('S!B1')
+            a1, have_c = 1, False
+            for i, op in enumerate(hist):
+                acc.add('transitions')
+                if op[0] == 'set':
+                    mdl.set_value('S!A1', op[1])
+                    a1 = op[1]
+                    continue
+                if op[0] == 'ev':
+                    mdl.evaluate('S!C1')
+                    mdl.evaluate('S!D1')
+                    have_c = True
+                    continue
+                time.sleep(0.003)          # successive saves get distinct time stamps
+                try:
+                    mdl.to_file(base, file_types=op[1])
+                except Exception as exc:
+                    acc.violation(dict(kind='saves', part='C2', verdict='save-raised', hist=jsonable(hist[:i + 1]), exc=type(exc).__name__),
+                                  f'history {list(hist[:i + 1])}: to_file raised {type(exc).__name__}: {str(exc)[:150]}')
+                    break
+                acc.add('evaluations')
+                want = {'S!A1': a1, 'S!B1': a1 + 1}
+                if have_c:
+                    want.update({'S!C1': (a1 + 1) * 2, 'S!D1': f'{a1}|'})
+                bad = None
+                for target in [base] + [f'{base}.{t}' for t in op[1]]:
+                    try:
+                        ld = ExcelCompiler.from_file(target)
+                        got = {a: ev(ld, a) for a in want}
+                    except Exception as exc:
+                        bad = (target, f'from_file raised {type(exc).__name__}: {str(exc)[:120]}')
+                        break
+                    wrong = {a: got[a] for a in want if not same(('ok', want[a]), got[a])}
+                    if wrong:
+                        bad = (target, f'gives {wrong}, the model saved last has {want}')
+                        break
+                if bad:
+                    how = 'bare name' if bad[0] == base else os.path.splitext(bad[0])[1][1:]
+                    acc.violation(dict(kind='saves', part='C2', verdict='stale-or-incomplete-load', hist=jsonable(hist[:i + 1]), how=how),
+                                  f'history {list(hist[:i + 1])} (model starts with A1=1, B1 evaluated): from_file({os.path.basename(bad[0])!r}) {bad[1]}')
+                    break
+            acc.add('distinct_nontrivial', int(sum(o[0] == 'save' for o in hist) > 1))
+            shutil.rmtree(d, ignore_errors=True)
+    finally:
+        shutil.rmtree(tmp, ignore_errors=True)
+    return acc.result()
+
+
 # ---------------------------------------------------------------------------------------------- part D
 def load_and_dump(path, cells):
     """used on a new thread and by the fresh process"""
@@ -596,7 +681,8 @@ def run(ctx):
                 jobs.append((f, fmt, False, vals[:2], 3, 12000, False))
     ctx.pmap(work_lockstep, jobs, timeout=3000)
     # C
-    ctx.pmap(work_rules, [(f, cyc) for f in fams for cyc in (False, True)], timeout=1200)
+    ctx.pmap(work_rules, [(f, cyc) for f in fams for cyc in (False, True)] + [(f, 'bare') for f in fams[:6]], timeout=1200)
+    ctx.pmap(work_saves, [(k, 8, 5 if ctx.thorough else 4) for k in range(8)] + [(k, 8, 'patterns') for k in range(8)], timeout=3000)
     # D
     jobs = []
     chosen = fams if ctx.thorough else [f for f in fams if f['name'] in ('chain', 'fan_range', 'cse', 'unbounded', 'names')]
